@@ -99,7 +99,11 @@ Fixpoint fid_loop (fuel : nat) (pending marked : list N) (mn : N) : prog N :=
 Definition face_id_tx (n d : N) : prog N := fid_loop (fuel_of n) [d] [d; 0] d.
 
 (** ** attributes/collections.rs : AttrSparseVec::merge / split, for coordinates *)
+(* same cell on both sides: nothing to merge, the value is kept (moved if the id changes) *)
 Definition vertices_merge (out l r : N) : prog unit :=
+  if l =? r then
+    (if out =? l then Ret tt else v <- rdV l ;; wrV l None ;;; wrV out v)
+  else
   a <- rdV l ;;
   b <- rdV r ;;
   let new_v := match a, b with
@@ -113,6 +117,9 @@ Definition vertices_merge (out l r : N) : prog unit :=
   end.
 
 Definition vertices_split (lo ro inp : N) : prog unit :=
+  if lo =? ro then
+    (if lo =? inp then Ret tt else v <- rdV inp ;; wrV inp None ;;; wrV lo v)
+  else
   a <- rdV inp ;;
   let res := match a with Some v => v_split v | None => v_split_none end in
   match res with
@@ -122,6 +129,9 @@ Definition vertices_split (lo ro inp : N) : prog unit :=
 
 (** the same for a user attribute kind [k]; each law call is a [Tick] *)
 Definition attr_merge (k out l r : N) : prog unit :=
+  if l =? r then
+    (if out =? l then Ret tt else v <- rdA k l ;; wrA k l None ;;; wrA k out v)
+  else
   a <- rdA k l ;;
   b <- rdA k r ;;
   Tick (fun inj =>
@@ -137,6 +147,9 @@ Definition attr_merge (k out l r : N) : prog unit :=
   end).
 
 Definition attr_split (k lo ro inp : N) : prog unit :=
+  if lo =? ro then
+    (if lo =? inp then Ret tt else v <- rdA k inp ;; wrA k inp None ;;; wrA k lo v)
+  else
   a <- rdA k inp ;;
   Tick (fun inj =>
   let res := if inj then None else
